@@ -334,6 +334,7 @@ impl Run {
                 };
                 let mut runner = TestRunner::new(cfg);
                 let stats = RefCell::new(Stats::new());
+                let first_fail: RefCell<Option<Failure>> = RefCell::new(None);
                 let local = RefCell::new(init(shard));
                 let strategy = strat();
                 let res = runner.run(&strategy, |v| {
@@ -344,7 +345,12 @@ impl Run {
                         Ok(()) => Ok(()),
                         Err(f) => {
                             st.frozen = true; // shrinking starts: stop counting
-                            Err(TestCaseError::fail(f.kind))
+                            let kind = f.kind.clone();
+                            let mut ff = first_fail.borrow_mut();
+                            if ff.is_none() {
+                                *ff = Some(f);
+                            }
+                            Err(TestCaseError::fail(kind))
                         }
                     }
                 });
@@ -354,13 +360,17 @@ impl Run {
                         let mut st = stats.borrow_mut();
                         st.frozen = true;
                         let mut lo = local.borrow_mut();
-                        match test(&minimal, &mut st, &mut lo) {
-                            Err(f) => Some(f),
-                            Ok(()) => Some(Failure::new(
-                                "unstable",
-                                "minimal case did not fail again when re-run",
-                                json!({ "case": format!("{minimal:?}") }),
-                            )),
+                        if max_shrink == 0 {
+                            // cases depend on shard-local history (long-lived contexts): report the first failure as it happened
+                            first_fail.borrow_mut().take()
+                        } else {
+                            match test(&minimal, &mut st, &mut lo) {
+                                Err(f) => Some(f),
+                                Ok(()) => first_fail.borrow_mut().take().map(|mut f| {
+                                    f.message = format!("{} (the shrunk case did not fail again: depends on earlier cases in the same context)", f.message);
+                                    f
+                                }),
+                            }
                         }
                     }
                     Err(TestError::Abort(r)) => Some(Failure::new(
